@@ -664,6 +664,9 @@ class PyExec:
                 r = st.heap.mem(b.addr, ival(a))
             elif isinstance(b, PRef) and b.cls == "dict":
                 r = st.heap.has(b.addr, ival(a))
+            elif isinstance(b, PStr) and b.text is not None and isinstance(a, PStr) and len(a.codes) == 1:
+                # one character in a constant string
+                r = z3.Or(*[a.codes[0] == ord(ch) for ch in b.text]) if b.text else z3.BoolVal(False)
             elif isinstance(b, PSeq) and isinstance(a, PStr) and len(a.codes) == 1:
                 if b.maxlen is not None:
                     r = z3.Or(*[z3.And(j < b.ln, z3.Select(b.arr, b.off + j) == a.codes[0]) for j in range(b.maxlen)]) \
@@ -843,6 +846,24 @@ class PyExec:
             st.path.append(z3.Implies(z3.And(lo_raw >= 0, hi_raw >= 0), ln <= maxlen))
         return PSeq(o.arr, o.off + lo, ln, maxlen)
 
+    def int_of_text(self, st, v, base, n, maxdigits=8):
+        """int(text, base) for a text of 1..maxdigits digits of that base (no sign, no underscores, no whitespace): anything
+        else is a ValueError site (obligation unless the contract allows it / a handler catches it)"""
+        def dig(c):
+            d = z3.If(z3.And(c >= 48, c <= 57), c - 48, z3.If(z3.And(c >= 97, c <= 102), c - 87, z3.If(z3.And(c >= 65, c <= 70), c - 55, 99)))
+            return d
+        ch = lambda j: z3.Select(v.arr, v.off + j)  # noqa: E731
+        self.oblige(st, "subset", "int_text.at_most_%d_digits" % maxdigits, v.ln <= maxdigits, n)
+        valid = z3.And(v.ln >= 1, *[z3.Implies(j < v.ln, dig(ch(j)) < base) for j in range(maxdigits)])
+        self.guard(st, "ValueError.int_literal", valid, n)
+        total = z3.IntVal(0)
+        for ln in range(1, maxdigits + 1):
+            val = z3.IntVal(0)
+            for j in range(ln):
+                val = val * base + dig(ch(j))
+            total = z3.If(v.ln == ln, val, total)
+        return total
+
     def ev_List(self, st, n):
         items = [self.ev(st, e) for e in n.elts]
         return self.new_list(st, items)
@@ -893,6 +914,11 @@ class PyExec:
             if isinstance(v, PRef):
                 return PBool(z3.BoolVal(v.cls in classes))
             raise OutOfSubset("isinstance of %s" % v.kind)
+        if name == "int" and len(n.args) == 2 and not n.keywords:
+            v, base = self.ev(st, n.args[0]), self.ev(st, n.args[1])
+            if isinstance(v, PSeq) and isinstance(base, PInt) and z3.is_int_value(base.t) and base.t.as_long() in (8, 10, 16):
+                return PInt(self.int_of_text(st, v, base.t.as_long(), n))
+            raise OutOfSubset("int(text, base)")
         if name in self.opt.get("identity_functions", ()) and len(n.args) == 1 and not n.keywords:
             return self.ev(st, n.args[0])       # e.g. str(x) for an x the contract says is already a str
         if name in ("str", "repr", "float", "hash", "id") and len(n.args) == 1 and not n.keywords:
@@ -966,6 +992,12 @@ class PyExec:
                     r = z3.If(z3.And(j < recv.ln, z3.Select(recv.arr, recv.off + j) == a[0].codes[0]), z3.IntVal(j), r)
                 return PInt(r)
             raise OutOfSubset("str.find beyond a single character in a statically bounded slice")
+        if meth == "encode" and isinstance(recv, PStr) and recv.text is None and len(n.args) == 1 \
+                and isinstance(n.args[0], ast.Constant) and str(n.args[0].value).upper().replace("_", "-") in ("ISO-8859-1", "LATIN-1", "LATIN1"):
+            # text.encode('ISO-8859-1'): one byte per character, UnicodeEncodeError above U+00FF
+            for c in recv.codes:
+                self.guard(st, "UnicodeEncodeError.latin1", z3.And(c >= 0, c <= 255), n)
+            return PStr(list(recv.codes))
         if meth in self.opt.get("uf_methods", ()) and isinstance(recv, PAny) and not n.args and not n.keywords:
             # e.g. text.lower() on an abstract string identity: an uninterpreted function of the identity
             return PAny(z3.Function("method_" + meth, IntSort, IntSort)(recv.t))
